@@ -152,6 +152,25 @@ class C15(vlib.Driver):
                               "lead": lead, "input": "numpy", "order": list(reversed(range(len(combo)))), "pat": 0})
                 cases.append({"kind": "vect", "space": {"t": "tuple", "members": [leafs[k] for k in combo]},
                               "lead": lead, "input": "numpy", "pat": 0})
+        # seeded stream: random space x lead x value pattern x input kind (replays exactly from the seed)
+        for _ in range(150 if not thorough else 2500):
+            kind = rng.choice(["box", "box", "discrete", "md", "mb"])
+            if kind == "box":
+                shape = [rng.randint(1, 3) for _ in range(rng.randint(0, 4))]
+                if len(shape) == 3:
+                    dt, lo, hi = rng.choice([("uint8", 0, 255), ("float32", 0, 1), ("float32", -1, 1), ("float32", 0, "inf"),
+                                             ("float32", "per", "per"), ("float64", -2, 2), ("int64", 0, 4)])
+                else:
+                    dt, lo, hi = rng.choice([("float32", -1, 1), ("uint8", 0, 255), ("float64", -2, 2), ("int64", -5, 5)])
+                sp = {"t": "box", "shape": shape, "dtype": dt, "low": lo, "high": hi}
+            elif kind == "discrete":
+                sp = {"t": "discrete", "n": rng.choice([1, 2, 3, 4, 7])}
+            elif kind == "md":
+                sp = {"t": "md", "nvec": [rng.randint(1, 4) for _ in range(rng.randint(1, 3))]}
+            else:
+                sp = {"t": "mb", "n": rng.randint(1, 4)}
+            lead = rng.choice(leads + [[rng.randint(1, 4)], [rng.randint(1, 3), rng.randint(1, 3)]])
+            add(sp, lead, rng.choice(["numpy", "tensor"]), rng.random() < 0.8, pat=rng.randint(0, 60))
         cases += ag_level.generate(tier, rng)
         return cases
 
@@ -168,8 +187,9 @@ class C15(vlib.Driver):
             except Exception as e:
                 return {"err": type(e).__name__, "msg": str(e)[:200]}
         nz = case["normalize"]
+        prep = _prep_callable(case, space)
         try:
-            out = preprocess_observation(obs, space, normalize_images=nz)
+            out = prep(obs)
             res = {"ok": tensor_out(case, out)}
         except Exception as e:
             res = {"err": type(e).__name__, "msg": str(e)[:200]}
@@ -181,7 +201,7 @@ class C15(vlib.Driver):
             for i in range(B):
                 one = to_input(case, arrays, row=i)
                 try:
-                    o1 = tensor_out(case, preprocess_observation(one, space, normalize_images=nz))
+                    o1 = tensor_out(case, prep(one))
                 except Exception as e:
                     single_err = f"{type(e).__name__}: {e}"[:200]
                     break
@@ -271,7 +291,7 @@ class C15(vlib.Driver):
         if len(lead) == 2 and 1 in lead:
             lk = "step-env-with-1"
         labs = [f"kind={case['kind']}", f"space={case['space']['t']}", f"lead={lk}", f"input={case['input']}",
-                "result=" + ("ok" if "ok" in obs else "raises")]
+                "result=" + ("ok" if "ok" in obs else "raises"), "entry=" + case.get("algo", "module-function")]
         if case["space"]["t"] == "box":
             labs.append(f"box-rank={len(case['space']['shape'])}")
             if len(case["space"]["shape"]) == 3 and case["kind"] == "prep":
@@ -291,6 +311,22 @@ class C15(vlib.Driver):
             if lead != case["lead"]:
                 c = dict(case); c["lead"] = lead
                 yield c
+
+
+def _prep_callable(case, space):
+    """the entry point under test: the module-level function, or agent.preprocess_observation of a real agent"""
+    nz = case["normalize"]
+    if "algo" not in case:
+        return lambda o: preprocess_observation(o, space, normalize_images=nz)
+    if "names" in case:                                    # multi-agent: the dict keys are the agent ids
+        names = case["names"]
+        agent = ag_level.get_agent(case["algo"], case["space"]["fields"][0][1], names, nz)
+
+        def call(o):
+            out = agent.preprocess_observation({names[int(k[1:])]: v for k, v in o.items()})
+            return {f"k{names.index(n)}": v for n, v in out.items()}
+        return call
+    return ag_level.get_agent(case["algo"], case["space"], None, nz).preprocess_observation
 
 
 def _vect_kind(case):
